@@ -135,6 +135,8 @@ var builderSpecs = []builderSpec{
 
 func runC11(r *Run) {
 	const P = "C11"
+	// a request that re-commits to the key it reveals is rejected at intake: the builders must refuse it (shared with C12)
+	r.checkClientReuse(P)
 	// a request built exactly at a protocol limit must be accepted: the intake limits are inclusive
 	// bounds on their own quantities (shared with C10)
 	{
